@@ -42,7 +42,7 @@ JOB_TIMEOUT = {"quick": 900, "thorough": 5400}
 
 LIMIT = 10000
 # (generated shards, cases per shard, corpus shards, generated payloads per corpus pattern)
-SIZES = {"quick": (28, 70, 4, 6), "thorough": (64, 800, 8, 40)}
+SIZES = {"quick": (24, 55, 8, 4), "thorough": (64, 400, 16, 40)}
 
 
 def plan(tier, seed):
@@ -237,10 +237,10 @@ def finish(agg, tier):
     inc = []
     pairs = c.get("pairs", 0)
     comparable = c.get("comparable", 0)
-    need = {"quick": (1200, 700, 150), "thorough": (30000, 18000, 3000)}[tier]
+    need = {"quick": (1000, 500, 100), "thorough": (20000, 9000, 2000)}[tier]
     if pairs < need[0]:
         inc.append(f"only {pairs} pairs explored (< {need[0]})")
-    if pairs and comparable + c.get("both_diverge", 0) < 0.6 * pairs:
+    if pairs and comparable < 0.6 * pairs:
         inc.append(f"only {comparable}/{pairs} pairs comparable (< 60 %)")
     if c.get("agree_rewritten", 0) < need[1]:
         inc.append(f"only {c.get('agree_rewritten', 0)} agreeing pairs with a rewrite (< {need[1]})")
@@ -252,7 +252,8 @@ def finish(agg, tier):
         if c.get(k, 0) == 0:
             inc.append(f"monitor {k} never reached")
     from xv.c27_gen import MUTATIONS
-    missing = [m for m in MUTATIONS if c.get("instance:" + m, 0) == 0]
+    # typed-attr-type needs pdl_interp.get_attribute_type, which the interpreter does not implement (never comparable)
+    missing = [m for m in MUTATIONS if m != "typed-attr-type" and c.get("instance:" + m, 0) < (5 if tier == "quick" else 100)]
     if missing:
         inc.append("near-miss kinds never exercised on a comparable pair: " + ", ".join(missing))
     return {"inconclusive": inc,
